@@ -56,6 +56,9 @@ def formal_position_name(fi, e):
                 else:
                     return None
             return formal_position_name(fi, cur)
+        if isinstance(src, ast.Name) and idx == 0:
+            # name, value = <pair local>: the name half of that pair
+            return formal_position(fi, src)
         d = [x for x in all_assignments(fi.node, e.id) if x is not None]
         if len(d) == 1:
             return formal_position_name(fi, d[0])
@@ -95,6 +98,9 @@ def formal_position(fi, e, depth=0):
                 if isinstance(idx, tuple):
                     return lo + idx[0] if idx[1] == 1 else None
                 return lo + idx
+            # name, value = <a (name, value) pair held in a local>: the value half stands at the pair's position
+            if isinstance(src, ast.Name) and idx == 1:
+                return formal_position(fi, src, depth + 1)
             return None
         d = [x for x in all_assignments(fi.node, e.id) if x is not None]
         if len(d) == 1:
